@@ -595,7 +595,7 @@ _TERMS = ["C", "C", "C", "E", None]
 def inner_specs(draw, max_inners=4, kinds=("cold", "cold", "sync", "hot"), max_len=4, max_dt=3):
     """List of inner source specs; inner i emits the distinct ints 100*i, 100*i+1, ... so that every element
     identifies its source.  Terminal: completion, error (tag e<i>) or none (never terminates)."""
-    n = draw(st.sampled_from([2, 3, 1, 4][: max_inners] if max_inners < 4 else [2, 3, 1, 4]))
+    n = draw(st.sampled_from([x for x in (2, 3, 1, 4, 5) if x <= max_inners]))
     out = []
     for i in range(n):
         kind = draw(st.sampled_from(list(kinds)))
